@@ -1,0 +1,19 @@
+//go:build verif
+
+// Machine-checked contracts for cmd/thermal-writer (comment-only, tag verif).
+
+package main
+
+// handleConn (C14, thermal-writer side of the frame socket): the connection is
+// wrapped by exactly one buffered reader; the header parser and the frame reads
+// are the only consumers of that reader, so nothing the header parser buffered
+// beyond the blank line can be lost or re-ordered.
+//@ func handleConn
+//@   mode permissive
+//@   only [C14] conn in NewReader#1
+//@   only [C14] reader in ReadHeaderInfo#1, ReadFull#1
+//@   call ReadHeaderInfo#1 given_after $result.1 == nil ==> $result.0 != nil && $result.0.fps >= 1 && $result.0.framesize >= 0
+//@   call ReadFull#1 assert [C14] ref($0) == reader
+//@   requires frameLogIntervalFirstMin >= 1 && frameLogInterval >= 1
+//@   loop 1 invariant header != nil && header.fps >= 1 && header.framesize >= 0 && frameLogIntervalFirstMin >= 1 && frameLogInterval >= 1 && reader != nil
+//@   loop 2 invariant header != nil && header.fps >= 1 && frameLogIntervalFirstMin >= 1 && frameLogInterval >= 1 && reader != nil
